@@ -191,5 +191,8 @@ func TrustedResourceURLAppend(t TrustedResourceURL, s string) (TrustedResourceUR
 	if !safehtmlutil.IsSafeTrustedResourceURLPrefix(t.str) {
 		return TrustedResourceURL{}, fmt.Errorf("cannot append to TrustedResourceURL %q because it has an unsafe prefix", t)
 	}
+	if safehtmlutil.URLContainsDoubleDotSegment(s) {
+		return TrustedResourceURL{}, fmt.Errorf(`cannot append %q to TrustedResourceURL %q: ".." is disallowed`, s, t)
+	}
 	return TrustedResourceURL{t.str + safehtmlutil.QueryEscapeURL(s)}, nil
 }
